@@ -262,6 +262,8 @@ def mutate_bytes(r, x):
         return kind, _splice_int(r, x, b'i-' + b'9' * 4300 + b'e')
     if kind in ('lead-zero-len', 'lead-zero-len-many', 'len-4301-digits', 'colon-only', 'long-len'):
         ms = list(re.finditer(rb'(?<![0-9])([0-9]+):', x))
+        if not ms:
+            return 'trailing', x + b'e'
         m = r.choice(ms)
         if kind == 'lead-zero-len':
             return kind, x[:m.start()] + b'0' + x[m.start():]
@@ -271,21 +273,23 @@ def mutate_bytes(r, x):
             return kind, x[:m.start()] + b'0' * (4301 - len(m.group(1))) + x[m.start():]
         if kind == 'colon-only':
             return kind, x[:m.start()] + x[m.end() - 1:]
-        return kind, x[:m.start()] + r.choice([b'99999999', b'4294967296', b'9223372036854775807']) + x[m.end() - 1:]
+        return kind, x[:m.start()] + r.choice([b'99999999', b'9999999']) + x[m.end() - 1:]
     if kind == 'trailing':
         return kind, x + r.choice([b'e', b'i0e', b'0:', b'\n', b'x'])
     if kind == 'truncate':
-        return kind, x[:r.randrange(len(x))]
+        return kind, x[:r.randrange(max(1, len(x)))]
     if kind == 'empty':
         return kind, r.choice([b'', b'e', b'd', b'l', b'i', b'de', b'le', b'0:', b'i0e', b'dde', b'lle', b'ldee'])
     if kind == 'bitflip':
-        i = r.randrange(len(x))
+        i = r.randrange(max(1, len(x)))
         return kind, x[:i] + bytes([x[i] ^ (1 << r.randrange(8))]) + x[i + 1:]
     if kind == 'extra-e':
         i = r.randrange(len(x))
         return kind, x[:i] + b'e' + x[i:]
     if kind == 'missing-e':
         idx = [i for i, c in enumerate(x) if c == 0x65]
+        if not idx:
+            return 'truncate', x[:-1]
         i = r.choice(idx)
         return kind, x[:i] + x[i + 1:]
     raise AssertionError(kind)
